@@ -12,10 +12,13 @@
 (***************************************************************************)
 EXTENDS Sync, TLC, Json
 
-CONSTANTS Ops, BranchSrc, BranchDst, TagSrc, TagDst, Depths, TagSpecs
+CONSTANTS Ops, BranchSrc, BranchDst, TagSrc, TagDst, Depths, TagSpecs,
+          TwinDst    \* values of a SECOND branch on the receiving side whose counterpart on the sending side
+                     \* points at the very commit of the first (None: no second branch): two refs of one
+                     \* operation that receive the same commit are still judged one by one
 
-VARIABLES op, bs, bd, ts, td, f1, tspec, gforce, depth, phase
-vars == <<op, bs, bd, ts, td, f1, tspec, gforce, depth, phase>>
+VARIABLES op, bs, bd, ts, td, f1, tspec, gforce, depth, phase, tw
+vars == <<op, bs, bd, ts, td, f1, tspec, gforce, depth, phase, tw>>
 
 Par == [c \in 1..7 |-> CASE c = 1 -> {} [] c = 2 -> {1} [] c = 3 -> {2} [] c = 4 -> {3}
                          [] c = 5 -> {2} [] c = 6 -> {5} [] c = 7 -> {}]
@@ -26,10 +29,13 @@ MkRefs(pairs) == [n \in {p[1] : p \in {q \in pairs : q[2] # None}} |-> (CHOOSE p
 
 \* fetch: remote (sender) heads/main, tags/v1  ->  local remotes/origin/main, tags/v1
 \* push : local (sender) heads/main, tags/v1   ->  remote heads/main, tags/v1
-SenderRefs == MkRefs({<<"heads/main", bs>>, <<"tags/v1", ts>>})
+Twin == tw # None
+\* (the twin sorts AFTER main on both sides: "heads/main" < "heads/twin")
+SenderRefs == MkRefs({<<"heads/main", bs>>, <<"tags/v1", ts>>, <<"heads/twin", IF Twin THEN bs ELSE None>>})
 RecvRefs == IF op = "merge" THEN MkRefs({<<"heads/main", bd>>, <<"heads/other", bs>>})
-            ELSE IF op = "fetch" THEN MkRefs({<<"remotes/origin/main", bd>>, <<"tags/v1", td>>, <<"heads/local", 1>>})
-            ELSE MkRefs({<<"heads/main", bd>>, <<"tags/v1", td>>, <<"heads/other", 1>>})
+            ELSE IF op = "fetch" THEN MkRefs({<<"remotes/origin/main", bd>>, <<"tags/v1", td>>, <<"heads/local", 1>>,
+                                              <<"remotes/origin/twin", tw>>})
+            ELSE MkRefs({<<"heads/main", bd>>, <<"tags/v1", td>>, <<"heads/other", 1>>, <<"heads/twin", tw>>})
 Repo(refs) == [refs |-> refs, commits |-> Closure({refs[n] : n \in DOMAIN refs}),
                tables |-> Closure({refs[n] : n \in DOMAIN refs})]
 Sender == Repo(SenderRefs)
@@ -38,6 +44,8 @@ Receiver == Repo(RecvRefs)
 Specs ==
   {[src |-> "heads/main", dst |-> IF op = "fetch" THEN "remotes/origin/main" ELSE "heads/main", force |-> f1]}
   \cup (IF tspec = "none" THEN {} ELSE {[src |-> "tags/v1", dst |-> "tags/v1", force |-> tspec = "force"]})
+  \cup (IF Twin THEN {[src |-> "heads/twin", dst |-> IF op = "fetch" THEN "remotes/origin/twin" ELSE "heads/twin", force |-> FALSE]}
+        ELSE {})
 
 ExpectRefs == IF op = "merge" THEN MergeRefs(Par, RecvRefs, "heads/main", "heads/other", tspec)
               ELSE IF op = "fetch" THEN FetchRefs(Par, Receiver, Sender, Specs, gforce, depth)
@@ -52,16 +60,16 @@ Export == [op |-> op,
            sender |-> Pairs(SenderRefs), receiver |-> Pairs(RecvRefs),
            specs |-> IF op = "merge" THEN {<<"heads/other", "heads/main", FALSE>>} ELSE {<<s.src, s.dst, s.force>> : s \in Specs},
            mode |-> tspec,
-           gforce |-> gforce, depth |-> depth,
+           gforce |-> gforce, depth |-> depth, twin |-> tw,
            refs |-> Pairs(ExpectRefs), rejected |-> ExpectRejected]
 
 Init == /\ op \in Ops /\ bs \in BranchSrc /\ bd \in BranchDst /\ f1 \in BOOLEAN /\ gforce \in BOOLEAN
-        /\ ts = None /\ td = None /\ tspec = "none" /\ depth = 0 /\ phase = "pick"
+        /\ ts = None /\ td = None /\ tspec = "none" /\ depth = 0 /\ phase = "pick" /\ tw = None
 MergeNext == /\ op = "merge" /\ phase = "pick" /\ phase' = "done"
              /\ bd # None /\ ~f1 /\ ~gforce
              /\ tspec' \in {"default", "ffonly", "noff"}
              /\ MergeOutcome(Par, bd, bs, tspec') # "real-merge"     \* a real merge needs the merge UI: covered by C05
-             /\ UNCHANGED <<op, bs, bd, f1, gforce, ts, td, depth>>
+             /\ UNCHANGED <<op, bs, bd, f1, gforce, ts, td, depth, tw>>
              /\ PrintT(<<"SCN", ToJson(Export')>>)
 Next == MergeNext \/
         /\ op # "merge"
@@ -69,6 +77,8 @@ Next == MergeNext \/
         /\ ts' \in TagSrc /\ td' \in TagDst /\ tspec' \in TagSpecs
         /\ depth' \in (IF op = "fetch" THEN Depths ELSE {0})
         /\ (op = "push" /\ ts' = None) => tspec' = "none"   \* pushing a ref one does not have is a usage error
+        \* the second branch only where no tag is involved (keeps the universe small)
+        /\ tw' \in (IF ts' = None /\ td' = None /\ tspec' = "none" THEN TwinDst ELSE {None})
         /\ UNCHANGED <<op, bs, bd, f1, gforce>>
         /\ PrintT(<<"SCN", ToJson(Export')>>)
 Spec == Init /\ [][Next]_vars
